@@ -31,7 +31,7 @@ func init() {
 			"fragmenting readers obey the io.Reader contract: at least one byte or an error per call for non-empty p; n > 0 may come together with io.EOF",
 			"failure kinds: ok / tracks missing / end-of-data family / other",
 		},
-		Require: []string{"fragmented_reads", "short_reads_in_multibyte_field", "split_points", "eof_with_data_reads", "truncated_files", "compared_ok_values", "compared_failures", "big_payload_files", "big_truncated_reads", "file_and_bufio_reads", "pipe_reads", "extended_header_files"},
+		Require: []string{"reads_from_sources_with_len_method", "fragmented_reads", "short_reads_in_multibyte_field", "split_points", "eof_with_data_reads", "truncated_files", "compared_ok_values", "compared_failures", "big_payload_files", "big_truncated_reads", "file_and_bufio_reads", "pipe_reads", "extended_header_files"},
 		Run:     runC09,
 	})
 }
@@ -60,6 +60,25 @@ func (r *fragReader) Read(p []byte) (int, error) {
 	}
 	return n, err
 }
+
+// lenReader is a fragmenting reader of a record-oriented stream: like many real sources (a
+// bytes.Buffer holding the rest of the current record, a framed network stream) it also has a Len
+// method - meaning "bytes buffered right now", not "bytes left in the stream" - and a Size method.
+// io.Reader promises nothing about either; what is read must not depend on them.
+type lenReader struct {
+	fragReader
+	lenCalls int
+}
+
+func (r *lenReader) Len() int {
+	r.lenCalls++
+	if len(r.chunks) > 0 && r.chunks[0] < len(r.b) {
+		return r.chunks[0]
+	}
+	return len(r.b)
+}
+
+func (r *lenReader) Size() int64 { r.lenCalls++; return int64(r.Len()) }
 
 func runC09(c *mon.Ctx) {
 	runC09Sources(c)
@@ -94,11 +113,17 @@ func runC09(c *mon.Ctx) {
 			wf = fromLib(want)
 		}
 		check := func(label string, chunks []int, eof bool) {
-			rd := &fragReader{chunkReader: chunkReader{b: b, chunks: append([]int(nil), chunks...), eofWithLast: eof}}
+			lr := &lenReader{fragReader: fragReader{chunkReader: chunkReader{b: b, chunks: append([]int(nil), chunks...), eofWithLast: eof}}}
+			rd := &lr.fragReader
+			var src io.Reader = rd
+			if strings.HasSuffix(label, "+Len") {
+				src = lr // the same fragmentation through a source that also has Len and Size methods
+				c.Count("reads_from_sources_with_len_method", 1)
+			}
 			in := map[string]any{"file": mon.Hex(b), "fragmentation": label, "chunks": head32(chunks, 40)}
 			var got *smf.SMF
 			var err error
-			if c.Guard("panic:fragmented", in, func() { got, err = smf.ReadFrom(rd) }) {
+			if c.Guard("panic:fragmented", in, func() { got, err = smf.ReadFrom(src) }) {
 				return
 			}
 			c.Count("fragmented_reads", 1)
@@ -133,6 +158,9 @@ func runC09(c *mon.Ctx) {
 		for k := 1; k < limit; k += step {
 			check("split", []int{k}, false)
 			c.Count("split_points", 1)
+			if i%10 == 0 || k%5 == 0 {
+				check("split+Len", []int{k}, false)
+			}
 		}
 		ones := make([]int, len(b))
 		for j := range ones {
@@ -143,6 +171,10 @@ func runC09(c *mon.Ctx) {
 		for j := 0; j < 5; j++ {
 			check("random-partition", r.Partition(len(b), r.Pick(2, 3, 5, 16, 100)), j%2 == 1)
 		}
+		for j := 0; j < 3; j++ {
+			check("records+Len", r.Partition(len(b), r.Pick(16, 100, 512, 1024)), j == 1)
+		}
+		check("one-byte+Len", ones, false)
 		check("data+eof", nil, true)
 		if i < 1 {
 			c.Sample("file", map[string]any{"bytes": mon.Hex(head(b, 120)), "in-memory result": wk, "fragmentations": fmt.Sprintf("%d split points + one-byte + 5 random + data+EOF", limit-1)})
